@@ -35,15 +35,19 @@ import (
 func TestMain(m *testing.M) {
 	evid.Rule("a source and a destination database over 2–3 interfaces × 3 days (around a year/month boundary and a leap day) are written through goProbe's DBWriter (encoder per side); each (interface, day) per side is absent, clearly partial (starts ≥ 2·tolerance+10 min late and/or ends that early, 1–6 blocks) or clearly complete " +
 		"(first block ≤ day start + tolerance/2, last block + 5 min ≥ day end − tolerance/2 with a regular 5-minute tail, 0–4 blocks in between); block timestamps come from a small alphabet of 5-minute slots plus off-grid values and are deliberately shared between the two sides (always with different contents); " +
+		"one pair in six may also hold partial days that start on time, end early and whose last block follows a long gap (00:00, 00:05, …, 13:00); empty sources/destinations and a missing destination directory are forced now and then; " +
 		"options: interface selection (all / subset / with a name that is not in the source), overwrite, tolerance ∈ {0, 150 s, 300 s, 1 h, 6 h}, an optional dry run before the real merge, process time zone ∈ {UTC, New York, Kolkata}; " +
-		"MergeDatabases runs in-process (it starts no goroutines); afterwards the destination tree is read back through GPDir and decoded independently, queried once per interface through the engine in an executor child, the same merge is run a second time; " +
+		"MergeDatabases runs in-process (it starts no goroutines); source and destination trees are hashed file by file around every run; after the merge the destination tree is read back through GPDir and decoded independently (timestamps, flows, drops, day summaries in .blockmeta and in the directory name), " +
+		"queried once through the engine in an executor child (all interfaces, time label, all attributes), then the same merge is run a second time; " +
 		"non-trivial = the real merge rebuilds at least one day that has at least one timestamp present on both sides; distinct by (source, destination, options, zone)")
 	evid.Assume("both databases are written by goProbe's own DBWriter (C01/C03) in the time zone the merge runs in",
 		"days whose completeness classification depends on undocumented detail are not generated: 'complete' and 'partial' are generated only where the first block is within half the tolerance of the day start / more than twice the tolerance (+10 min) away from it, and likewise at the day end, "+
-			"and the last two blocks of a day that ends early are at most as far apart as the documented reading (fixed 5-minute blocks) and the implemented one (interval taken from the last two blocks) both allow",
+			"under the reading that a block covers 5 minutes as well as under the reading that it covers the distance of the last two blocks",
+		"the one exception are the gap-before-last-block days: they end more than twice the tolerance early and show a 5-minute rhythm at their start, so the documentation makes them partial; the implementation's complete (inferred interval = the gap) is attributed to finding C24-F1 when everything observed equals the plan in which exactly these days count as complete",
 		"when the merged day's own class is not clear in that sense (second merge only) the per-action counts of the second merge are not compared, only their total and the unchanged content",
 		"a block timestamp present on both sides counts as one conflict; the conflict counters of a dry run are not compared (nothing is resolved in a dry run)",
-		"a requested interface that the source does not have may be answered with an error (then nothing may have changed) or be ignored; it is never required to be an error")
+		"a requested interface that the source does not have may be answered with an error (then nothing may have changed) or be ignored; it is never required to be an error",
+		"a dry run (or a failing merge) may create the destination directory itself if it did not exist; nothing else may differ")
 	evid.Main(m)
 }
 
@@ -155,13 +159,13 @@ type summary struct {
 }
 
 type planResult struct {
-	DB       *model.DB // expected destination
-	Sum      summary
-	Actions  []string // "eth0/1703894400: rebuilt (partial vs complete) conflicts=2"
-	Unclear  bool     // a class that decides an action was not clear
-	NT       bool     // >= 1 day rebuilt with >= 1 conflicting timestamp
-	Hist     map[string]int
-	GapDays  []string // days whose class hinges on the gap-before-last-block reading and decides an action
+	DB      *model.DB // expected destination
+	Sum     summary
+	Actions []string // "eth0/1703894400: rebuilt (partial vs complete) conflicts=2"
+	Unclear bool     // a class that decides an action was not clear
+	NT      bool     // >= 1 day rebuilt with >= 1 conflicting timestamp
+	Hist    map[string]int
+	GapDays []string // days whose class hinges on the gap-before-last-block reading and decides an action
 }
 
 // refMerge applies the documented rule:
